@@ -852,7 +852,11 @@ void init_binaries () {
       if (CONFIG_STR(__SIMUL_EFUN_FILE__))
         {
           struct stat st;
-          if (0 == stat (CONFIG_STR(__SIMUL_EFUN_FILE__), &st))
+          const char *simul_file = CONFIG_STR(__SIMUL_EFUN_FILE__);
+          /* the name is relative to the mudlib directory (our working directory), like in load_object() */
+          while (*simul_file == '/')
+            simul_file++;
+          if (0 == stat (simul_file, &st))
             {
               config_id = (uint64_t)st.st_mtime;
             }
